@@ -93,11 +93,15 @@ NoDefect == [kind |-> "none", col |-> "-", i |-> 0, j |-> 0, tok |-> "-"]
 Clean(rs) == [cols |-> BaseCols, index |-> "range",
               ids |-> [i \in 1..Len(rs) |-> [n |-> i, q |-> "same"]], rows |-> rs]
 Without(s, c) == SelectSeq(s, LAMBDA e : e # c)
+ColOrders == << <<"exclude", "geo", "treatment", "control">>, <<"geo", "treatment", "exclude", "control">>,
+                <<"control", "exclude", "treatment", "geo">> >>
 Cases(rs) ==
   LET n == Len(rs) tb == Clean(rs) IN
     {[d |-> NoDefect, tb |-> tb]}
     \cup {[d |-> [NoDefect EXCEPT !.kind = "geo_index"], tb |-> [tb EXCEPT !.cols = Tail(BaseCols), !.index = "geo"]]}
     \cup {[d |-> [NoDefect EXCEPT !.kind = "extra_col"], tb |-> [tb EXCEPT !.cols = Append(BaseCols, "note")]]}
+    \cup {[d |-> [NoDefect EXCEPT !.kind = "col_order", !.i = k], tb |-> [tb EXCEPT !.cols = ColOrders[k]]]
+            : k \in 1..Len(ColOrders)}      \* columns are found by NAME: their order in the frame means nothing
     \cup (IF n > MaxDefRows THEN {} ELSE
          {[d |-> [NoDefect EXCEPT !.kind = "missing", !.col = c], tb |-> [tb EXCEPT !.cols = Without(BaseCols, c)]]
             : c \in Range(BaseCols)}
@@ -196,7 +200,7 @@ TypeOK == /\ pc \in {"reset", "chk_geo", "chk_dupcol", "chk_cols", "chk_dupid", 
 RefinesAccept == /\ (Validated => Accept(table))
                  /\ (pc = "rejected" => ~Accept(table))
 \* a single deviation is harmless exactly when it is one of the legal presentations
-DefectsJudged == Accept(table) <=> (defect.kind \in {"none", "geo_index", "extra_col"} /\ NoZeroRow(table))
+DefectsJudged == Accept(table) <=> (defect.kind \in {"none", "geo_index", "extra_col", "col_order"} /\ NoZeroRow(table))
 \* the answer of the implementation shape is the contract's answer
 RefinesClasses == /\ (pc = "answered" => ~Raises(q) /\ ans = Expected(table, q))
                   /\ (pc = "raised" => Raises(q))
